@@ -15,7 +15,7 @@ theorem rel_tick (d : Nat) (hR : R k s g j) (i1 : Inv1 s) (i2 : Inv2 s) (i3 : In
   refine ⟨?_, ?_, ht⟩
   · rb_close
   · intro o ho
-    rcases hh o ho with ⟨r1,r2,r3,r4,r5,r6,r7,r8,r9,r10,r11,r12,r13,r14,r15,r16,r17,r18⟩
+    rcases hh o ho with ⟨r1,r2,r3,r4,r5,r6,r7,r8,r9,r10,r11,r12,r13,r14,r15,r16,r17,r18,r19,r20,r21,r22⟩
     rh_try
     · intro a b; exact timeoutDue_mono (r4 a b) (by omega)
     · intro a b
